@@ -253,6 +253,13 @@ func mergeValues(opts *options, old, v value) (value, Error) {
 		return v, nil
 	}
 
+	// A reference evaluates to a sub-configuration that lives elsewhere (under
+	// another key, or in a configuration given with Env): merge into a copy of
+	// it, the place the reference points to is not part of this merge.
+	if !isSub(old) {
+		subOld = cfgSub{subOld}.cpy(old.Context()).(cfgSub).c
+	}
+
 	// merge new and old evaluated sub-configurations and return subOld for
 	// reassigning to old key in case of subOld being generated dynamically
 	if err := mergeConfig(opts, subOld, subV); err != nil {
